@@ -567,7 +567,10 @@ def crash_as_violation(ctx, ps, outdir, mode, mon):
             scen = json.load(open(os.path.join(outdir, "%s-%d.journal" % (mode, k)))).get("scenario", "?")
         except Exception:
             pass
-        if "panic:" in text or "fatal error:" in text:
+        if "blocked goroutines remain" in text:
+            # synctest: the scenario returned while goroutines of its bubble were still blocked for good
+            ctx.add_violation(mon.replace("Panic", "GoroutinesRemainBlocked"), scen, ["a call or background goroutine never terminated"])
+        elif "panic:" in text or "fatal error:" in text:
             first = [ln for ln in text.splitlines() if ln.startswith("panic:") or ln.startswith("fatal error:")][:1]
             ctx.add_violation(mon, scen, [first[0][:200] if first else "panic"])
         elif "scenarios hung" in text or "VF-HANG" in text:
@@ -619,6 +622,25 @@ def c03(ctx):
 
 
 EXTRA["C03"] = ["C01_", "C02_Delivered", "C06_Genuine", "C06_AtMostOnce", "C17_WrongKindAbort"]
+
+
+@check("C09", ["C09_"])
+def c09(ctx):
+    binp = ctx.harness()
+    out = ctx.scr.mkdir("crash")
+    ps = L.run_shards(binp, "crash", out, 16, {"VF_NSHARDS": 16, "VF_STRIDE": 3 if ctx.quick else 1})
+    crash_as_violation(ctx, ps, out, "crash", "C09_Panic")
+    files = sorted(glob.glob(os.path.join(out, "crash-*.ndjson")))
+    for f in files:
+        for line in open(f):
+            if '"ev":"cfg"' in line:
+                lab = json.loads(line)["label"]
+                ctx.distinct.add(("crash", re.sub(r"-at\d+#\d+", "", lab)))
+    ctx.exhaustive = not ctx.quick
+    ctx.notes.append("crash points: 5 base scenarios (handshake, transfer with loss, stream reset, graceful shutdown, blocked blocking writes) x DATA/I-DATA x "
+                     "every %s wire event x {Close x3, Abort, read failure, write failure, transport close} x both sides, callers parked in connect, accept, "
+                     "read, blocking write and shutdown" % ("third" if ctx.quick else "single"))
+    ctx.validate(files)
 
 
 @check("C10", ["C10_"])
